@@ -122,9 +122,14 @@ class C01(F.PropCheck):
         pieces = []; prev = 0
         for c in cuts + [n]:
             if c > prev: pieces.append(s[prev:c]); prev = c
-        # chunks never exceed the staging buffer unless we want an overflow case
-        out = []
+        # chunks never exceed the staging buffer unless we want an overflow case (a TCP segment carries up to 1460 bytes:
+        # 6 % of the cases keep one piece of 1025..1500 bytes, which the bound check of recv_cb must refuse)
+        out = []; big = rng.random() < 0.06
         for p in pieces:
+            if big and len(p) > 1024:
+                k = rng.choice([1025, 1026, 1100, 1279, 1280, 1281, 1460, 1500]); k = min(k, len(p))
+                out.append(p[:k]); p = p[k:]; big = False
+                if not p: continue
             while len(p) > 1024: out.append(p[:1024]); p = p[1024:]
             out.append(p)
         return out
@@ -142,7 +147,7 @@ class C01(F.PropCheck):
             overflow_case = rng.random() < 0.03
             staged = 0
             for p in pieces:
-                if not overflow_case and staged + len(p) > 1024:
+                if not overflow_case and len(p) <= 1024 and staged + len(p) > 1024:
                     # drain with ticks so that the chunk fits
                     while staged + len(p) > 1024: evs.append(('TICK', [], b'')); staged = max(0, staged - 256)
                 evs.append(('RECV', [], p)); staged = max(0, staged + len(p) - 256)
